@@ -22,12 +22,12 @@ def nested_pair(rng, drv):
 
 
 def run(ctx):
-    from shapepy import EmptyShape, WholeShape, Primitive
+    from shapepy import EmptyShape, WholeShape, Primitive, JordanCurve
     rng, drv = ctx.rng, ctx.drv
     E, W = EmptyShape(), WholeShape()
     from harness import degen
     degen.evaluate(ctx, "subset")      # deterministic non-transversal corpus (findings K2-*)
-    n = 60 if ctx.quick else 2500
+    n = 60 if ctx.quick else 1500
     for it in range(n):
         if it % 3 == 0:
             A, da, B, db = nested_pair(rng, drv)
@@ -70,12 +70,36 @@ def run(ctx):
             for jb in B.jordans:
                 vs = [tuple(v) for v in jb.vertices]
                 for flag in (True, False):
-                    expj = curve_in(drv, vs, ta, flag)
-                    if expj is None:
-                        continue
+                    expj = drv.ask(f"curvein {ta} {core.epoly(vs)} {'T' if flag else 'F'}") == "T"
                     gotj = A.contains_jordan(jb, flag)
                     ctx.case("curve-in-shape", (repr(da), tuple(vs), flag))
                     ctx.check(gotj == expj, "`J in A` disagrees with point-wise containment of the curve", {**desc, "curve": vs, "boundary": flag}, expj, gotj)
+    # ---- curves that touch the boundary of the shape: closed (boundary=True) vs open (boundary=False)
+    for it in range(10 if ctx.quick else 300):
+        kind = rng.choice(shapes.DEFINED)
+        A, da = shapes.make(rng, kind, 0, 0, drv)
+        ta = shapes.enc_desc(da)
+        cands = []
+        for vs in curves_of(da):
+            cands.append(("own-curve", vs))
+            cands.append(("own-curve-reversed", vs[::-1]))
+            # a triangle with one vertex on the boundary (an edge midpoint) pointing along the inner normal
+            a, b = vs[0], vs[1]
+            mid = ((a[0] + b[0]) / 2, (a[1] + b[1]) / 2)
+            nx, ny = -(b[1] - a[1]), (b[0] - a[0])
+            for sgn, nm in ((F(1, 16), "touching-from-the-left"), (F(-1, 16), "touching-from-the-right")):
+                tip = [mid, (mid[0] + sgn * nx + sgn * (b[0] - a[0]) / 4, mid[1] + sgn * ny + sgn * (b[1] - a[1]) / 4), (mid[0] + sgn * nx - sgn * (b[0] - a[0]) / 4, mid[1] + sgn * ny - sgn * (b[1] - a[1]) / 4)]
+                cands.append((nm, tip))
+        for nm, vs in cands:
+            J = JordanCurve.from_vertices(vs)
+            for flag in (True, False):
+                exp = drv.ask(f"curvein {ta} {core.epoly(vs)} {'T' if flag else 'F'}") == "T"
+                ctx.case("curve-touching-boundary", (repr(da), nm, tuple(vs), flag))
+                try:
+                    got = A.contains_jordan(J, flag)
+                except Exception as ex:
+                    ctx.fail("contains_jordan raised", {"A": core.jsonable(da), "curve": vs, "boundary": flag}, got=repr(ex)); continue
+                ctx.check(got == exp, "`J in A` with a curve touching the boundary disagrees with the closed/open rule", {"A": core.jsonable(da), "which": nm, "curve": vs, "boundary": flag}, exp, got)
     # ---- Empty / Whole table
     S, ds = shapes.make(rng, "connected", 0, 0, drv)
     table = [(E, E, True), (E, W, True), (W, E, False), (W, W, True), (E, S, True), (W, S, False), (S, E, False), (S, W, True)]
